@@ -39,6 +39,19 @@ package posix
 //@   at-call posix.Posix.PutObjectTagging {C02,C06} [tags-after-body] requires bodyRead
 //@   at-call posix.Posix.PutObjectLegalHold {C02,C06} [hold-after-body] requires bodyRead
 //@   at-call posix.Posix.PutObjectRetention {C02,C06} [retention-after-body] requires bodyRead
+// C06: the temporary file is sized by the declared length and is published only when exactly that many bytes arrived
+//@   let declared = old(ite(po.ContentLength != nil, *po.ContentLength, 0))
+//@   at-call posix.Posix.openTmpFile {C06} [temp-file-sized-by-the-declared-length] requires $4 == declared
+//@   at-call posix.tmpfile.link {C06} [published-only-with-exactly-the-declared-bytes] requires po.Body != nil ==> result("io.Copy", 0) == declared
+//@ func (*Posix) UploadPart
+//@   let bodyRead = called("io.Copy") && result("io.Copy", 1) == nil
+//@   let declared = old(ite(input.ContentLength != nil, *input.ContentLength, 0))
+//@   at-call posix.Posix.openTmpFile {C06} [temp-file-sized-by-the-declared-length] requires $4 == declared
+//@   at-call meta.MetadataStorer.StoreAttribute {C06} [attributes-after-body] requires bodyRead
+//@   at-call posix.Posix.storeChecksums {C06} [checksums-after-body] requires bodyRead
+//@   at-call posix.tmpfile.link {C06} [publication-after-body] requires bodyRead
+//@   at-call posix.tmpfile.link {C06} [published-only-with-exactly-the-declared-bytes] requires result("io.Copy", 0) == declared
+
 
 // ---- C16: bucket deletion and listing -----------------------------------------------------------
 //@ func (*Posix) versioningEnabled
@@ -151,3 +164,7 @@ package posix
 //@   ensures {C07} [truncation-flag-present] err == nil ==> ret0.IsTruncated != nil
 //@   ensures {C07} [next-position-is-the-walk-marker] err == nil ==> (walk.NextMarker == "" ==> ret0.NextContinuationToken == nil) && (walk.NextMarker != "" ==> ret0.NextContinuationToken != nil && *ret0.NextContinuationToken == walk.NextMarker)
 //@   ensures {C07} [at-most-max-keys-objects] err == nil ==> len(ret0.Contents) <= old(*input.MaxKeys)
+
+// getString reads through an optional string pointer
+//@ func getString
+//@   frame none
